@@ -519,18 +519,29 @@ def pruned(cfg: CFG, atom: Callable[[ast.AST, int], Tri], normal_only: bool = Tr
     return ok
 
 
-def lifted(flow: Flow, atom: Callable[[ast.AST, int], Tri], fuel: int = 4) -> Callable[[ast.AST, int], Tri]:
+def lifted(flow: Flow, atom: Callable[[ast.AST, int], Tri], fuel: int = 4,
+           scenario: Callable[[Flow], Callable[[int, int, str], bool]] | None = None) -> Callable[[ast.AST, int], Tri]:
     """`atom` extended to boolean locals: a name holding a condition computed earlier in the same
-    function (`bad = isnan(x) or isinf(x)` ... `if bad:`) is decided by evaluating that condition."""
+    function (`bad = isnan(x) or isinf(x)` ... `if bad:`, or a flag set to a constant in one arm and to a
+    condition in another) is decided by evaluating what it was assigned -- every definition that can
+    reach (under `scenario`, if given) must give the same verdict."""
     def atom2(e: ast.AST, nid: int) -> Tri:
         v = atom(e, nid)
         if v is None and isinstance(e, ast.Name) and fuel > 0:
-            o = flow.origin1(e, nid)
-            if o is not None and o.kind == "expr" and o.flow is flow and o.node is not None and o.nid is not None \
-                    and isinstance(o.node, (ast.BoolOp, ast.UnaryOp, ast.Compare, ast.Call, ast.Attribute, ast.Constant)):
-                inner = lifted(flow, atom, fuel - 1)
-                at = o.nid
-                return tri(o.node, lambda x: inner(x, at))
+            verdicts: set[Tri] = set()
+            for o in flow.origin(e, nid, scenario=scenario):
+                if o.kind == "expr" and o.flow is flow and o.node is not None and o.nid is not None \
+                        and isinstance(o.node, (ast.BoolOp, ast.UnaryOp, ast.Compare, ast.Call, ast.Attribute, ast.Constant)):
+                    inner = lifted(flow, atom, fuel - 1, scenario)
+                    at = o.nid
+                    if isinstance(o.node, ast.Constant) and not isinstance(o.node.value, bool):
+                        verdicts.add(None if o.node.value is None else bool(o.node.value))
+                    else:
+                        verdicts.add(tri(o.node, lambda x: inner(x, at)))
+                else:
+                    verdicts.add(None)
+            if len(verdicts) == 1:
+                return verdicts.pop()
         return v
 
     return atom2
@@ -904,3 +915,28 @@ def inline_all(prog: Program, fn: FuncInfo, stop: Iterable[str] = (), depth: int
     ast.fix_missing_locations(root)
     root._inlined = inlined  # type: ignore[attr-defined]
     return FuncInfo(fn.name, fn.module, root, fn.cls, fn.outer)
+
+
+def expr_guards(flow: Flow, sub: ast.AST) -> list[tuple[ast.AST, bool]]:
+    """Conditions inside the same statement under which the sub-expression `sub` is evaluated at all:
+    (test, required outcome) for every enclosing conditional expression arm and every earlier operand of an
+    enclosing `and` / `or` (short-circuit)."""
+    out: list[tuple[ast.AST, bool]] = []
+    cur: ast.AST = sub
+    while id(cur) in flow._parent:
+        par = flow._parent[id(cur)]
+        if isinstance(par, ast.IfExp):
+            if cur is par.body:
+                out.append((par.test, True))
+            elif cur is par.orelse:
+                out.append((par.test, False))
+        elif isinstance(par, ast.BoolOp):
+            need = isinstance(par.op, ast.And)
+            for v in par.values:
+                if v is cur:
+                    break
+                out.append((v, need))
+        elif isinstance(par, (ast.ListComp, ast.SetComp, ast.GeneratorExp, ast.DictComp, ast.Lambda)):
+            break
+        cur = par
+    return out
